@@ -511,4 +511,17 @@ inline Heap g_heap;
 // pages that hold the container objects of the current run (released by the worker after the run)
 inline unsigned char* g_obj_pages = nullptr;
 inline volatile bool g_read_phase = false;  // C19: shared state is write-protected
+inline bool g_shared_block[MAX_BLOCKS] = {};  // C19: blocks owned by the shared objects (write-protected in the read phase)
+
+// is `addr` inside the readable part of a write-protected shared block?
+inline bool in_shared_block(const void* addr)
+{
+    const char* c = static_cast<const char*>(addr);
+    for (int i = 0; i < g_heap.nblocks; ++i)
+    {
+        const Block& b = g_heap.blocks[i];
+        if (g_shared_block[i] && b.live && c >= b.rw && c < b.rw + b.rwlen) return true;
+    }
+    return false;
+}
 }  // namespace sim
